@@ -25,8 +25,8 @@ pub fn def() -> PropDef {
     }
 }
 
-const DICT: [&str; 78] = [
-    "local", "function", "end", "if", "then", "else", "elseif", "while", "do", "repeat", "until", "for", "in", "return", "break", "continue", "and", "or", "not", "nil", "true", "false", "type", "export", "typeof", "const", "(", ")", "{", "}", "[", "]", "[[", "]]", "[=[", "]=]", "--", "--[[", "`", "{{", "\"", "'", "\\", ";", ":", "::", ",", ".", "..", "...", "=", "==", "~=", "<", ">", "<=", ">=", "<<", ">>", "+", "-", "*", "/", "//", "%", "^", "#", "+=", "..=", "->", "?", "|", "&", "@", "x", "1", "0x", "1e",
+const DICT: [&str; 105] = [
+    "local", "function", "end", "if", "then", "else", "elseif", "while", "do", "repeat", "until", "for", "in", "return", "break", "continue", "and", "or", "not", "nil", "true", "false", "type", "export", "typeof", "const", "(", ")", "{", "}", "[", "]", "[[", "]]", "[=[", "]=]", "--", "--[[", "`", "{{", "\"", "'", "\\", ";", ":", "::", ",", ".", "..", "...", "=", "==", "~=", "<", ">", "<=", ">=", "<<", ">>", "+", "-", "*", "/", "//", "%", "^", "#", "+=", "..=", "->", "?", "|", "&", "@", "x", "1", "0x", "1e", "\\u{", "\\u{D800}", "\\u{110000}", "\\u{}", "\\x", "\\xZZ", "\\z", "\\999", "\\256", "\\", "\\\n", "0x", "0b", "0b2", "1e+", "1__", "0x_", "1e309", "0xffffffffffffffffff", ".5.", "..=", "<<", ">>", "@native", "::", "->", "...",
 ];
 
 fn valid_program(t: &mut Tape) -> String {
@@ -54,7 +54,27 @@ fn char_boundary(s: &str, mut i: usize) -> usize {
 }
 
 fn gen_text(t: &mut Tape, st: &mut Stats) -> String {
-    let mut s = match t.weighted(&[2, 3, 3, 5]) {
+    let mut s = match t.weighted(&[2, 3, 3, 5, 2]) {
+        4 => {
+            // literal soup: string / number / interpolation spellings built from escape fragments
+            st.class("literal_soup");
+            let open = ["\"", "'", "`", "[[", "[==["][t.choose(5)];
+            let close = match open {
+                "[[" => "]]",
+                "[==[" => "]==]",
+                o => o,
+            };
+            let frag = ["\\u{", "D800", "DFFF", "10FFFF", "110000", "FFFFFFFFFF", "}", "\\x", "4", "G", "\\z", " \n ", "\\", "\\\n", "\\\r\n", "\\1", "\\255", "\\256", "\\0009", "{", "{{", "}", "{x}", "{`a`}", "\u{e9}", "\u{feff}", "a", "\r", "\n"];
+            let mut s = String::from(["return ", "local x = ", "f", "x = x .. ", "type T = "][t.choose(5)]);
+            s.push_str(open);
+            for _ in 0..t.choose(8) {
+                s.push_str(frag[t.choose(frag.len())]);
+            }
+            if t.bool(220) {
+                s.push_str(close);
+            }
+            s
+        }
         0 => {
             st.class("random_characters");
             let n = t.choose(200);
